@@ -63,6 +63,12 @@ def headOf (s : State) : Op → String
   | .sa k j => if (s.cos j).st = .parked then s!"n={(s.sps k).handles.length + 1}" else "skip"
   | .sp k => if (s.sps k).handles.isEmpty then "none" else "ok"
   | .sf k => s!"n={(s.sps k).handles.length}"
+  | .sm k k2 =>
+      if k = k2 then s!"n={(s.sps k).handles.length}" else s!"n={(s.sps k).handles.length + (s.sps k2).handles.length}"
+  | .rm k i kd =>
+      if (s.futs i).existed then
+        s!"{boolStr (!(s.futs i).claimed)} n={(s.sps k).handles.length + (resolve s i kd).tmp.handles.length}"
+      else "skip"
   | .gen g _ _ => if (s.gens g).exist then "skip" else "ok"
   | .gs g _ =>
       if (s.gens g).exist then (match (genStep (s.gens g)).2 with | some v => s!"v:{v}" | none => "done") else "skip"
@@ -131,6 +137,18 @@ def parseOp (ws : List String) : Option Op :=
       | _, _ => none
   | ["sp", k] => (natOf k nSp).map .sp
   | ["sf", k] => (natOf k nSp).map .sf
+  | ["sm", k, k2] =>
+      match natOf k nSp, natOf k2 nSp with
+      | some k, some k2 => some (.sm k k2)
+      | _, _ => none
+  | ["sg", k, k2] =>                          -- move-assignment is the same function as `<<`
+      match natOf k nSp, natOf k2 nSp with
+      | some k, some k2 => some (.sm k k2)
+      | _, _ => none
+  | ["rm", k, i, kd] =>
+      match natOf k nSp, natOf i maxId, kd.toList with
+      | some k, some i, [c] => (parseKind c).map (Op.rm k i)
+      | _, _, _ => none
   | ["gen", g, h, n] =>
       match natOf g maxId, parseHeap h, natOf n 1000000 with
       | some g, some h, some n => some (.gen g h n)
